@@ -1394,6 +1394,30 @@ fn c15_space_a() {
     space_cases(&["#ax\n#y\nz", "#a\\x\n#y\nz", "#a x\n#y\nz", "#a\nx\n#y\nz", "#a\rx\n#y\nz", "#aax\n#y\nz", "#a\\\\x\n#y\nz", "#a\\ x\n#y\nz", "#a\\\nx\n#y\nz", "#a\\\rx\n#y\nz", "#a\\ax\n#y\nz", "#a \\x\n#y\nz", "#a  x\n#y\nz", "#a \nx\n#y\nz", "#a \rx\n#y\nz", "#a ax\n#y\nz", "#a\n\\x\n#y\nz", "#a\n x\n#y\nz", "#a\n\nx\n#y\nz", "#a\n\rx\n#y\nz", "#a\nax\n#y\nz", "#a\r\\x\n#y\nz", "#a\r x\n#y\nz", "#a\r\nx\n#y\nz", "#a\r\rx\n#y\nz", "#a\rax\n#y\nz", "#aa\\x\n#y\nz", "#aa x\n#y\nz", "#aa\nx\n#y\nz", "#aa\rx\n#y\nz", "#aaax\n#y\nz"]);
 }
 
-// (Point obligations running `Lexer::lex` on short filter texts with a non-ASCII character after
-// each kind of token start - `.é`, `$é`, `"\é"` ... - were built and exceeded 900 s even though
-// the inputs are string literals: collecting the token tree is what does not fit.  Not registered.)
+// ------------------------------------------------------------------------------------------
+// C05 / C15: one token of the lexer on texts with a non-ASCII character right after each kind of
+// token start (points).  `Lexer::lex` as a whole - collecting the token tree - exceeds 900 s even
+// on string literals; a single `token()` call takes seconds.
+// ------------------------------------------------------------------------------------------
+/// `Lexer::token` never panics (no slicing off a character boundary, no unreachable) and
+/// consumes exactly the ASCII token prefix: (token found, bytes left, errors recorded)
+#[kani::proof]
+#[kani::unwind(13)]
+fn c05_token_points() {
+    use crate::load::lex::Lexer;
+    // `.` followed by a letter that is not ASCII: just the dot
+    assert!(Lexer::verif_token(".é") == (true, 2, 0));
+    assert!(Lexer::verif_token(".a") == (true, 0, 0));
+    assert!(Lexer::verif_token("._é") == (true, 2, 0));
+    assert!(Lexer::verif_token("..é") == (true, 2, 0));
+    // identifiers, numbers and sigils stop before the non-ASCII character
+    assert!(Lexer::verif_token("aé") == (true, 2, 0));
+    assert!(Lexer::verif_token("1é") == (true, 2, 0));
+    assert!(Lexer::verif_token("$é") == (true, 2, 1));
+    assert!(Lexer::verif_token("@é") == (true, 2, 1));
+    assert!(Lexer::verif_token("a::é") == (true, 2, 1));
+    assert!(Lexer::verif_token("+é") == (true, 2, 0));
+    // no token starts with it
+    assert!(Lexer::verif_token("é") == (false, 2, 0));
+    assert!(Lexer::verif_token(" #é\né") == (false, 2, 0));
+}
